@@ -10,7 +10,23 @@ Sub-checks
                    JSON, not by the backend.  Passive / diagonal gates and loss are exact on such priors (1e-10);
                    active gates get a tolerance proportional to the measured trace loss; preparations must give
                    exactly rho_rest (x) sigma; MeasureFock(select) must give the projected state (x) vacuum.
-  bosonic_nongauss bosonic backend with cat/Fock spectators (many weights): per-weight data of spectators unchanged.
+  bosonic_nongauss bosonic backend with cat/Fock spectators (many weights): per-weight data of spectators unchanged; a Gaussian
+                   preparation (single-mode, or Gaussian(V, r, decomp=False) on several modes) in the middle of such a
+                   circuit must put the documented state, uncorrelated, into EVERY term of the linear combination.
+
+Input classes added by the generator audit (labels in brackets):
+  * register with a gap: modes are deleted between the prior and the operation, so register indices differ from the
+    backend's internal axes / active list [ps_register_gap, fock_register_gap, *_target_after_gap];
+  * multi-mode Gaussian(V, r, decomp=False) on an ordered subset, incl. 3-cycles (prepare_gaussian_state: gaussian
+    fromscovmat/fromsmean(modes), bosonic from_covmat/from_mean) [ps_gaussian_prep_multimode, ..._3cycle];
+  * sampled (select=None) homodyne / heterodyne on gaussian and bosonic (measure_dyne instead of post_select_*): the rest is
+    conditioned on the outcome the run reported [ps_measure_sampled];
+  * bosonic MeasureThreshold (state IS updated there): moments of the two-term click state [ps_threshold(_click)];
+  * PassiveChannel (gaussian) and MSgate average map (bosonic) as channels on a subset [op:PassiveChannel, op:MSgate];
+  * fock MeasureHomodyne(select) with spectators, pure and mixed [fock_homodyne];
+  * fock four-mode registers: two spectators next to a pair, MeasureFock of three modes in 3-cycle order next to a
+    spectator, DensityMatrix on 2 / Ket on 3 modes of a larger register [fock_four_modes, measure_sampled_3cycle,
+    fock_multimode_prep_on_subset].
 """
 from __future__ import annotations
 
@@ -22,8 +38,9 @@ from hypothesis import strategies as st
 from vf import fockref, gen, refsim, sfrun, spec
 from vf.core import Sub
 
-RULE = ("a correlated prior state (entangling Gaussian circuit, or a generated bounded-photon ket/mixture on all modes) "
-        "followed by ONE operation under test on an ordered target tuple in a register of 2..4 modes; non-trivial = the "
+RULE = ("a correlated prior state (entangling Gaussian circuit, or a generated bounded-photon ket/mixture on all modes), "
+        "optionally the deletion of one or two of its modes (register with a gap), "
+        "followed by ONE operation under test on an ordered target tuple in a register of 2..5 modes; non-trivial = the "
         "prior correlates a target with a spectator (phase space: |cov off-block| > 1e-3; Fock: prior is not a product "
         "across the target/spectator cut) ; distinct = distinct JSON")
 ASSUMPTIONS = [
@@ -34,9 +51,23 @@ ASSUMPTIONS = [
     "with sigma obtained from the same preparation on a one-mode register (position independence) and, where a closed "
     "form is documented (Vacuum, Fock, Ket, DensityMatrix, Coherent), with that closed form",
     "gaussian-backend MeasureFock/MeasureThreshold do not update the state (documented): excluded",
+    "sampled measurements are conditioned on the outcome the run reports (Result.samples_dict). A sampled homodyne on the "
+    "gaussian/bosonic backend is a general-dyne measurement on a state squeezed to variance eps^2, eps = 2e-4 (documented); its "
+    "unreported conjugate outcome shifts the other means by about eps * z * |cov| (z standard normal): means of the rest are "
+    "compared to 1e-2 * (1 + max|V|) in that one case (observed < 2e-4), covariances to 2e-5 * (1 + max|V|) as for select",
+    "bosonic MeasureThreshold (one mode, Gaussian prior): no click = <0|rho|0>/p0, click = (Tr_t rho - <0|rho|0>)/(1 - p0), "
+    "measured mode reset to vacuum; total mean / covariance compared to 1e-8 * (1 + max|V|) / (1 - p0) (observed 1e-15)",
+    "fock MeasureHomodyne(select): the (truncated, approximate) vector e the backend projects on is read off one canonical run "
+    "(mode 0 of the pure two-mode state sum_k |k,k>, same cutoff, angle and select); the check is that the same measurement "
+    "at any position of any register, pure or mixed, leaves <e|rho|e>/p (x) vacuum (1e-8). Whether e approximates the "
+    "quadrature eigenstate is not decided here",
+    "PassiveChannel: only the gaussian backend implements it; MSgate: only the bosonic backend, average map only (the "
+    "single-shot map conditions the spectators on the ancilla outcome)",
 ]
 REQUIRED_LABELS = {"all": ["backend:gaussian", "backend:bosonic", "backend:fock", "target_not_first", "fock_pure", "fock_mixed",
-                           "kind:gate", "kind:channel", "kind:prep", "kind:measure", "kind:del", "measure_sampled", "non_involutive_target_order"]}
+                           "kind:gate", "kind:channel", "kind:prep", "kind:measure", "kind:del", "measure_sampled", "non_involutive_target_order",
+                           "ps_register_gap", "fock_register_gap", "fock_four_modes", "ps_measure_sampled", "op:Gaussian", "ps_threshold",
+                           "fock_homodyne"]}
 
 
 def selftest():
@@ -75,81 +106,235 @@ def entangling_prior(draw, n, energy="ps"):
 
 
 @st.composite
+def gaussian_prep(draw, modes, hbar):
+    """multi-mode ``Gaussian(V, r, decomp=False)`` on an ordered mode tuple: the backend API call prepare_gaussian_state
+    (gaussian: fromscovmat/fromsmean with ``modes``; bosonic: from_covmat/from_mean), never reached by the
+    single-mode preparations"""
+    k = len(modes)
+    _, V = draw(gen.covariance(k, hbar))
+    r = None
+    if draw(st.integers(0, 3)) != 0:
+        r = spec.enc_vec([draw(gen.fl(-1.5, 1.5)) for _ in range(2 * k)])
+    return ["Gaussian", [spec.enc_matrix(V), r], list(modes), {"kw": {"decomp": False}}]
+
+
+@st.composite
+def passive_channel(draw, modes):
+    """PassiveChannel(T) with a generated k x k matrix T = U diag(s) W, 0 <= s <= 1 (lossy interferometer)"""
+    k = len(modes)
+    U = draw(gen.unitary(k))[1]
+    W = draw(gen.unitary(k))[1]
+    sv = [draw(st.one_of(st.sampled_from([1.0, 0.0]), gen.fl(0.05, 1.0))) for _ in range(k)]
+    T = U @ np.diag(sv).astype(complex) @ W
+    return ["PassiveChannel", [spec.enc_matrix(T)], list(modes), {}]
+
+
+@st.composite
 def ps_case(draw):
-    n = draw(st.integers(2, 4))
+    kind = draw(st.sampled_from(["gate", "gate", "channel", "prep", "prep_multi", "measure", "measure", "del"]))
+    n = draw(st.integers(2, 4)) if kind != "prep_multi" else draw(st.sampled_from([3, 4, 4, 5]))
     hbar = draw(st.sampled_from([2.0, 2.0, 1.0, 0.5, 3.3]))
     backend = draw(st.sampled_from(["gaussian", "bosonic"]))
     prior = draw(entangling_prior(n))
-    kind = draw(st.sampled_from(["gate", "gate", "channel", "prep", "measure", "del"]))
+    # register with a gap: one or two modes (entangled with the rest by the prior) are deleted BEFORE the operation
+    # under test; the operation is generated on the nl remaining modes and mapped to their register indices
+    pre = []
+    if n >= 3 and draw(st.integers(0, 3)) == 0:
+        pre = sorted(draw(st.permutations(list(range(n))))[:draw(st.integers(1, n - 2))])
+    alive = [m for m in range(n) if m not in pre]
+    nl = len(alive)
+    rng = 7
     if kind == "gate":
-        op = draw(gen.op_spec(n, PS_GATES, "ps"))
+        op = draw(gen.op_spec(nl, PS_GATES, "ps"))
     elif kind == "channel":
-        op = draw(gen.op_spec(n, PS_CHANNELS, "ps"))
-    elif kind == "prep":
-        op = draw(gen.op_spec(n, PS_PREPS, "ps"))
-    elif kind == "measure":
-        m = draw(st.integers(0, n - 1))
-        if draw(st.booleans()):
-            op = ["MeasureHomodyne", [draw(gen.angle())], [m], {"select": draw(gen.fl(-1.5, 1.5))}]
+        sub = draw(st.sampled_from(["std", "special"]))
+        if sub == "std":
+            op = draw(gen.op_spec(nl, PS_CHANNELS, "ps"))
+        elif backend == "gaussian":
+            k = draw(st.integers(1, max(1, min(3, nl - 1))))
+            op = draw(passive_channel(list(draw(st.permutations(list(range(nl))))[:k])))
         else:
-            op = ["MeasureHeterodyne", [], [m], {"select": {"re": draw(gen.fl(-0.8, 0.8)), "im": draw(gen.fl(-0.8, 0.8))}}]
+            # measurement-based squeezing, average map (a Gaussian CPTP map on one mode; bosonic backend only)
+            op = ["MSgate", [draw(gen.real(-0.8, 0.8, (0.0,))), draw(gen.angle()), draw(gen.fl(0.5, 3.0)),
+                             draw(st.one_of(st.just(1.0), gen.fl(0.5, 1.0))), True], [draw(st.integers(0, nl - 1))], {}]
+    elif kind == "prep":
+        op = draw(gen.op_spec(nl, PS_PREPS, "ps"))
+    elif kind == "prep_multi":
+        # Gaussian(V, r, decomp=False) on 1..3 modes listed in any order (3 modes: also the 3-cycles), at least one spectator
+        kind = "prep"
+        k = draw(st.sampled_from([min(3, nl - 1), min(3, nl - 1), min(3, nl - 1), min(2, nl - 1), 1]))
+        modes = list(draw(st.permutations(list(range(nl))))[:k])
+        if k == 3 and draw(st.booleans()):
+            a, b, c = sorted(modes)
+            modes = draw(st.sampled_from([[b, c, a], [c, a, b]]))  # the two orders that are not their own inverse
+        op = draw(gaussian_prep(modes, hbar))
+    elif kind == "measure":
+        m = draw(st.integers(0, nl - 1))
+        sampled = draw(st.integers(0, 2)) == 0  # no select: the backend samples; the check conditions on the reported outcome
+        if sampled:
+            rng = draw(st.integers(0, 9999))
+        if backend == "bosonic" and draw(st.integers(0, 2)) == 0:
+            # threshold detection of one mode: the bosonic backend updates the state (click: a two-term non-Gaussian state)
+            rng = draw(st.integers(0, 9999))
+            op = ["MeasureThreshold", [], [m], {}]
+            if draw(st.booleans()):  # more photons in the measured mode: otherwise 'no click' is by far the most frequent outcome
+                prior = prior + [["Dgate", [draw(gen.fl(0.8, 1.5)), draw(gen.angle())], [alive[m]], {}]]
+        elif draw(st.booleans()):
+            op = ["MeasureHomodyne", [draw(gen.angle())], [m], {"select": None if sampled else draw(gen.fl(-1.5, 1.5))}]
+        else:
+            op = ["MeasureHeterodyne", [], [m], {"select": None if sampled else {"re": draw(gen.fl(-0.8, 0.8)), "im": draw(gen.fl(-0.8, 0.8))}}]
     else:
-        k = draw(st.integers(1, n - 1))
-        op = ["Del", [], sorted(draw(st.permutations(list(range(n))))[:k]), {}]
-    return {"n": n, "hbar": hbar, "backend": backend, "prior": prior, "kind": kind, "op": op}
+        k = draw(st.integers(1, nl - 1))
+        op = ["Del", [], sorted(draw(st.permutations(list(range(nl))))[:k]), {}]
+    op[2] = [alive[m] for m in op[2]]
+    return {"n": n, "hbar": hbar, "backend": backend, "prior": prior, "kind": kind, "op": op, "pre_del": pre, "rng": rng}
+
+
+def _threshold_reference(n, prior, t, click, hbar):
+    """first and second moments (all n modes, (x.., p..) order) after a threshold detection of mode t of the Gaussian state
+    prepared by `prior`: no click = projection on |0><0| (the heterodyne outcome alpha = 0); click = 1 - |0><0|, i.e.
+    rho_rest' = (Tr_t rho - p0 <0|rho|0>/p0) / (1 - p0), a difference of two Gaussians; the measured mode is reset to vacuum.
+    p0 = <0|rho_t|0> = hbar / sqrt(det(V_t + hbar/2)) exp(-mu_t (V_t + hbar/2)^-1 mu_t / 2)."""
+    ref0 = spec.ref_run(n, prior, hbar)
+    B = [t, t + n]
+    A = [i for i in range(2 * n) if i not in B]
+    VB = ref0.V[np.ix_(B, B)] + hbar / 2 * np.eye(2)
+    p0 = float(hbar / np.sqrt(np.linalg.det(VB)) * np.exp(-0.5 * ref0.mu[B] @ np.linalg.solve(VB, ref0.mu[B])))
+    r0 = spec.ref_run(n, prior + [["MeasureHeterodyne", [], [t], {"select": {"re": 0.0, "im": 0.0}}]], hbar)
+    if not click:
+        return r0.mu, r0.V, p0
+    mA, m0 = ref0.mu[A], r0.mu[A]
+    SA = ref0.V[np.ix_(A, A)] + np.outer(mA, mA)
+    S0 = r0.V[np.ix_(A, A)] + np.outer(m0, m0)
+    q = max(1e-300, 1 - p0)
+    m1 = (mA - p0 * m0) / q
+    S1 = (SA - p0 * S0) / q
+    mu = np.zeros(2 * n)
+    V = np.zeros((2 * n, 2 * n))
+    mu[A] = m1
+    V[np.ix_(A, A)] = S1 - np.outer(m1, m1)
+    V[np.ix_(B, B)] = hbar / 2 * np.eye(2)
+    return mu, V, p0
 
 
 def check_ps(ctx, case):
     n, hbar, be, prior, kind, op = case["n"], case["hbar"], case["backend"], case["prior"], case["kind"], case["op"]
-    targets = list(op[2])
-    spect = [m for m in range(n) if m not in targets]
+    pre = list(case.get("pre_del", []))
+    rng = case.get("rng", 7)
+    if pre:
+        prior = prior + [["Del", [], pre, {}]]
+    alive = [m for m in range(n) if m not in pre]
+    nl = len(alive)
+    keep = alive + [a + n for a in alive]  # rows of the n-mode reference that belong to the modes still in the register
+    targets = [alive.index(t) for t in op[2]]  # position of the targets in the returned state (remaining modes, index order)
+    spect = [m for m in range(nl) if m not in targets]
     ref0 = spec.ref_run(n, prior, hbar)
+    V0r = ref0.V[np.ix_(keep, keep)]
     # correlation between targets and spectators in the prior
-    it = targets + [t + n for t in targets]
-    isp = spect + [s + n for s in spect]
-    corr = float(np.max(np.abs(ref0.V[np.ix_(it, isp)]))) if spect else 0.0
+    it = targets + [t + nl for t in targets]
+    isp = spect + [s + nl for s in spect]
+    corr = float(np.max(np.abs(V0r[np.ix_(it, isp)]))) if spect else 0.0
     labels = ["backend:" + be, "kind:" + kind, "op:" + op[0]]
-    if targets[0] != 0:
+    if op[2][0] != 0:
         labels.append("target_not_first")
     if len(targets) == 2 and any(min(targets) < s < max(targets) for s in spect):
         labels.append("spectator_between_targets")
+    if pre:
+        labels.append("ps_register_gap")
+        if min(pre) < max(op[2]):
+            labels.append("ps_target_after_gap")
+    if op[0] == "Gaussian" and len(targets) >= 2:
+        labels.append("ps_gaussian_prep_multimode")
+        if targets != sorted(targets):
+            labels.append("ps_gaussian_prep_unsorted")
+        rk = [sorted(targets).index(t) for t in targets]
+        if [rk[r] for r in rk] != list(range(len(rk))):
+            labels.append("ps_gaussian_prep_3cycle")  # the order is a permutation that is not its own inverse
+    threshold = op[0] == "MeasureThreshold"
+    sampled = kind == "measure" and not threshold and op[3].get("select") is None
+    if sampled:
+        labels.append("ps_measure_sampled")
+    if threshold:
+        labels.append("ps_threshold")
     try:
         s0 = sfrun.run(be, n, prior, hbar, seed=7).state
-        s1 = sfrun.run(be, n, prior + [op], hbar, seed=7).state
+        res1 = sfrun.run(be, n, prior + [op], hbar, seed=rng)
+        s1 = res1.state
     except sfrun.Rejected:
         ctx.note(case, False, ["rejected:" + be])
         return None
     except Exception as exc:  # pylint: disable=broad-except
         return ctx.crash(exc, be + "." + op[0])
     ctx.note(case, nontrivial=corr > 1e-3 * hbar, labels=labels)
+    if s0.num_modes != nl:
+        return ctx.fail("del.num_modes.%s" % be, "state has %d modes after deleting %s of %d" % (s0.num_modes, pre, n))
     mu0, V0, _ = sfrun.moments_of(s0, be, hbar)
     mu1, V1, _ = sfrun.moments_of(s1, be, hbar)
     sc = 1.0 + float(np.max(np.abs(V0)))
     if kind == "del":
         # returned state holds the remaining modes only, in index order
         if s1.num_modes != len(spect):
-            return ctx.fail("del.num_modes.%s" % be, "state has %d modes after deleting %s of %d" % (s1.num_modes, targets, n))
+            return ctx.fail("del.num_modes.%s" % be, "state has %d modes after deleting %s of %d" % (s1.num_modes, pre + op[2], n))
         d = max(float(np.max(np.abs(mu1 - mu0[isp]))), float(np.max(np.abs(V1 - V0[np.ix_(isp, isp)]))))
         if d > 1e-10 * sc:
-            return ctx.fail("del.spectator_changed.%s" % be, "remaining modes changed by %.3g after Del %s" % (d, targets))
+            return ctx.fail("del.spectator_changed.%s" % be, "remaining modes changed by %.3g after Del %s" % (d, op[2]))
         return None
+    if s1.num_modes != nl:
+        return ctx.fail("num_modes_changed.%s.%s" % (be, op[0]), "state has %d modes after %s on a register with %d modes" % (s1.num_modes, op[0], nl))
     if kind in ("gate", "channel", "prep"):
         d = max(float(np.max(np.abs(mu1[isp] - mu0[isp]))), float(np.max(np.abs(V1[np.ix_(isp, isp)] - V0[np.ix_(isp, isp)])))) if spect else 0.0
         if d > 1e-10 * sc:
-            return ctx.fail("spectator_changed.%s.%s" % (be, op[0]), "reduced state of modes %s changed by %.3g when %s acted on %s" % (spect, d, op[0], targets))
-    ref1 = spec.ref_run(n, prior + [op], hbar)
-    tol = (1e-8 if kind != "measure" or op[0] == "MeasureHeterodyne" else 2e-5) * (1.0 + float(np.max(np.abs(ref1.V))))
-    if kind in ("prep", "measure"):
-        cross = float(np.max(np.abs(V1[np.ix_(it, isp)]))) if spect else 0.0
+            return ctx.fail("spectator_changed.%s.%s" % (be, op[0]), "reduced state of modes %s changed by %.3g when %s acted on %s" % ([alive[s] for s in spect], d, op[0], op[2]))
+    if kind not in ("prep", "measure"):
+        return None
+    op_ref = op
+    if threshold:
+        try:
+            click = int(np.ravel(res1.samples_dict[op[2][0]][-1])[0])
+        except Exception as exc:  # pylint: disable=broad-except
+            return ctx.fail("measure_samples_missing.%s" % be, "no reported outcome for measured mode %s: %r" % (op[2], exc))
+        ctx.label("ps_threshold_click" if click else "ps_threshold_noclick")
+        mu_t, V_t, p0 = _threshold_reference(n, prior, op[2][0], click, hbar)
+        mu1r, V1r = mu_t[keep], V_t[np.ix_(keep, keep)]
+        tol = 1e-8 * (1.0 + float(np.max(np.abs(V0r)))) / max(1e-12, (1 - p0) if click else 1.0)
+        cross = max(float(np.max(np.abs(V1[np.ix_(it, isp)]))), float(np.max(np.abs(V1[np.ix_(isp, it)])))) if spect else 0.0
+        dt = max(float(np.max(np.abs(mu1[it] - mu1r[it]))), float(np.max(np.abs(V1[np.ix_(it, it)] - V1r[np.ix_(it, it)]))))
+        dsp = max(float(np.max(np.abs(mu1[isp] - mu1r[isp]))), float(np.max(np.abs(V1[np.ix_(isp, isp)] - V1r[np.ix_(isp, isp)])))) if spect else 0.0
         if cross > tol:
-            return ctx.fail("target_still_correlated.%s.%s" % (be, op[0]), "after %s the targets %s remain correlated with the rest (%.3g)" % (op[0], targets, cross))
-        dt = max(float(np.max(np.abs(mu1[it] - ref1.mu[it]))), float(np.max(np.abs(V1[np.ix_(it, it)] - ref1.V[np.ix_(it, it)]))))
+            return ctx.fail("target_still_correlated.%s.%s" % (be, op[0]), "after %s (outcome %d) the target %s remains correlated with the rest (%.3g)" % (op[0], click, op[2], cross))
         if dt > tol:
-            return ctx.fail("target_poststate.%s.%s" % (be, op[0]), "post-state of the targets differs from the documented one by %.3g" % dt)
-    if kind == "measure" and spect:
-        dsp = max(float(np.max(np.abs(mu1[isp] - ref1.mu[isp]))), float(np.max(np.abs(V1[np.ix_(isp, isp)] - ref1.V[np.ix_(isp, isp)]))))
+            return ctx.fail("target_poststate.%s.%s" % (be, op[0]), "after %s (outcome %d) the target is not in the vacuum state (%.3g)" % (op[0], click, dt))
         if dsp > tol:
-            return ctx.fail("conditional_update.%s.%s" % (be, op[0]), "unmeasured modes differ from the conditional state of the reference by %.3g" % dsp)
+            return ctx.fail("conditional_update.%s.%s" % (be, op[0]), "after %s with outcome %d (p(no click) = %.6g) mean / covariance of the unmeasured modes differ by %.3g from those of %s"
+                            % (op[0], click, p0, dsp, "<0|rho|0>/p0" if not click else "(rho_rest - <0|rho|0>)/(1 - p0)"))
+        return None
+    if sampled:
+        # the outcome the run reported for the measured mode is the one the rest must be conditioned on
+        try:
+            val = complex(np.ravel(res1.samples_dict[op[2][0]][-1])[0])
+        except Exception as exc:  # pylint: disable=broad-except
+            return ctx.fail("measure_samples_missing.%s" % be, "no reported outcome for measured mode %s: %r" % (op[2], exc))
+        sel = float(val.real) if op[0] == "MeasureHomodyne" else {"re": float(val.real), "im": float(val.imag)}
+        op_ref = [op[0], op[1], op[2], {"select": sel}]
+    ref1 = spec.ref_run(n, prior + [op_ref], hbar)
+    mu1r, V1r = ref1.mu[keep], ref1.V[np.ix_(keep, keep)]
+    tol = (1e-8 if kind != "measure" or op[0] == "MeasureHeterodyne" else 2e-5) * (1.0 + float(np.max(np.abs(V1r))))
+    # a SAMPLED homodyne is a general-dyne measurement on a state squeezed to variance eps^2 (eps = 2e-4, documented):
+    # the unreported conjugate outcome (standard deviation 1/eps) shifts the other means by eps * z * |cov|, z ~ N(0,1)
+    tol_mu = tol if not (sampled and op[0] == "MeasureHomodyne") else 1e-2 * (1.0 + float(np.max(np.abs(V1r))))
+    # both off-diagonal blocks (the bosonic backend stores each covariance as a full matrix, rows and columns are written separately)
+    cross = max(float(np.max(np.abs(V1[np.ix_(it, isp)]))), float(np.max(np.abs(V1[np.ix_(isp, it)])))) if spect else 0.0
+    if cross > tol:
+        return ctx.fail("target_still_correlated.%s.%s" % (be, op[0]), "after %s the targets %s remain correlated with the rest (%.3g)" % (op[0], op[2], cross))
+    dt = max(float(np.max(np.abs(mu1[it] - mu1r[it]))), float(np.max(np.abs(V1[np.ix_(it, it)] - V1r[np.ix_(it, it)]))))
+    if dt > tol:
+        return ctx.fail("target_poststate.%s.%s" % (be, op[0]), "post-state of the targets differs from the documented one by %.3g" % dt)
+    if kind == "measure" and spect:
+        dmu = float(np.max(np.abs(mu1[isp] - mu1r[isp])))
+        dV = float(np.max(np.abs(V1[np.ix_(isp, isp)] - V1r[np.ix_(isp, isp)])))
+        if dV > tol or dmu > tol_mu:
+            return ctx.fail("conditional_update.%s.%s" % (be, op[0]), "unmeasured modes differ from the conditional state of the reference by %.3g (means) / %.3g (cov)%s"
+                            % (dmu, dV, " [sampled outcome %r]" % (op_ref[3]["select"],) if sampled else ""))
     return None
 
 
@@ -190,8 +375,27 @@ def fock_case(draw):
     kind = draw(st.sampled_from(["gate", "gate", "active", "prep", "prep", "prep_all", "measure", "measure", "del", "channel"]))
     if kind == "prep_all":
         n = draw(st.integers(3, 4))
+    msub = psub = None
+    if kind == "prep" and draw(st.integers(0, 3)) == 0:
+        # mixed two-mode DensityMatrix / three-mode Ket on a strict subset of the register, in any order, next to spectators
+        psub = "multi"
+        n = draw(st.sampled_from([3, 4, 4]))
     if kind == "measure":
-        n = draw(st.sampled_from([3, 3, 3, 2]))
+        n = draw(st.sampled_from([3, 3, 4, 2]))
+        # fock3: three measured modes (any order, mostly the 3-cycles) next to one spectator in a four-mode register
+        msub = draw(st.sampled_from(["fock", "fock", "fock3", "homodyne"]))
+        if msub == "fock3":
+            n = 4
+    if kind in ("gate", "channel", "del", "prep") and psub is None and draw(st.integers(0, 5)) == 0:
+        n = 4  # two spectators next to a two-mode target, both targets at index >= 2, three-mode preparations on a subset
+    # register with a gap: one mode (correlated with the rest by the prior) is deleted BEFORE the operation under test, so
+    # that register indices and the backend's internal axes differ; the operation acts on the nl remaining modes
+    pre = []
+    if kind != "prep_all" and msub != "fock3" and psub is None and draw(st.integers(0, 2)) == 0:
+        n = max(n, 3)
+        pre = [draw(st.sampled_from([0, 0] + list(range(1, n))))]  # deleting the last mode shifts no index: favour the first
+    alive = [m for m in range(n) if m not in pre]
+    nl = len(alive)
     if kind == "active":
         D, pmax = (8 if n == 2 else 7), 2
     elif n == 4:
@@ -204,42 +408,59 @@ def fock_case(draw):
     prior2 = draw(ket_terms(n, pmax)) if rep == "mixed" else None
     w = draw(gen.fl(0.2, 0.8)) if rep == "mixed" else 1.0
     if kind == "gate":
-        op = draw(gen.op_spec(n, [g for g in F_EXACT if g != "LossChannel"], "fock", no_mz_dagger=True))
+        op = draw(gen.op_spec(nl, [g for g in F_EXACT if g != "LossChannel"], "fock", no_mz_dagger=True))
     elif kind == "channel":
-        op = draw(gen.op_spec(n, ["LossChannel"], "fock"))
+        op = draw(gen.op_spec(nl, ["LossChannel"], "fock"))
     elif kind == "active":
-        op = draw(gen.op_spec(n, F_ACTIVE, "fock"))
+        op = draw(gen.op_spec(nl, F_ACTIVE, "fock"))
         op[1] = [p * 0.5 if isinstance(p, float) and op[0] in ("Dgate", "Sgate", "S2gate", "Xgate", "Zgate", "Pgate", "CXgate", "CZgate") and i == 0 else p for i, p in enumerate(op[1])]
     elif kind in ("prep", "prep_all"):
-        nm = draw(st.sampled_from(F_PREPS if kind == "prep" else ["KetN", "DMN"]))
+        names = F_PREPS if kind == "prep" else ["KetN", "DMN"]
+        if psub == "multi":
+            names = ["DM2"] if nl == 3 else ["Ket3", "Ket3", "DM2"]
+        nm = draw(st.sampled_from(names))
         kind = "prep"
         if nm in ("Ket1", "DM1"):
-            m = draw(st.integers(0, n - 1))
+            m = draw(st.integers(0, nl - 1))
             t1 = draw(ket_terms(1, D - 1))
             t2 = draw(ket_terms(1, D - 1)) if nm == "DM1" else None
             op = [nm, [t1, t2, draw(gen.fl(0.2, 0.8))], [m], {}]
         elif nm == "Ket2":
-            modes = list(draw(st.permutations(list(range(n))))[:2])
+            modes = list(draw(st.permutations(list(range(nl))))[:2])
             op = [nm, [draw(ket_terms(2, D - 1))], modes, {}]
+        elif nm in ("DM2", "Ket3"):
+            k = 2 if nm == "DM2" else 3
+            modes = list(draw(st.permutations(list(range(nl))))[:k])
+            if k == 3 and draw(st.booleans()):
+                a, b, c = sorted(modes)
+                modes = draw(st.sampled_from([[b, c, a], [c, a, b]]))
+            op = [nm, [draw(ket_terms(k, D - 1)), draw(ket_terms(k, D - 1)) if nm == "DM2" else None, draw(gen.fl(0.2, 0.8))], modes, {}]
         elif nm in ("KetN", "DMN"):
-            # multi-mode ket / density matrix on ALL modes of the register, listed in any order (3-cycles for n = 3)
-            modes = list(draw(st.permutations(list(range(n)))))
-            op = [nm, [draw(ket_terms(n, pmax)), draw(ket_terms(n, pmax)) if nm == "DMN" else None, draw(gen.fl(0.2, 0.8))], modes, {}]
+            # multi-mode ket / density matrix on ALL modes (still) in the register, listed in any order (3-cycles for 3 modes)
+            modes = list(draw(st.permutations(list(range(nl)))))
+            op = [nm, [draw(ket_terms(nl, pmax)), draw(ket_terms(nl, pmax)) if nm == "DMN" else None, draw(gen.fl(0.2, 0.8))], modes, {}]
         else:
-            op = draw(gen.op_spec(n, [nm], "fock"))
+            op = draw(gen.op_spec(nl, [nm], "fock"))
             if nm == "Fock":
                 op[1][0] = min(op[1][0], D - 1)
+    elif kind == "measure" and msub == "homodyne":
+        # post-selected homodyne measurement of one mode (projector applied to one axis of the ket / density tensor)
+        op = ["MeasureHomodyne", [draw(gen.angle())], [draw(st.integers(0, nl - 1))], {"select": draw(gen.real(-1.5, 1.5, (0.0,)))}]
     elif kind == "measure":
-        k = draw(st.sampled_from([n - 1, n - 1, 1]))
-        modes = list(draw(st.permutations(list(range(n))))[:k])
+        k = draw(st.sampled_from([nl - 1, nl - 1, 1])) if msub != "fock3" else 3
+        modes = list(draw(st.permutations(list(range(nl))))[:k])
         if k == 2 and draw(st.booleans()):
             modes = sorted(modes, reverse=True)
+        if k == 3 and draw(st.booleans()):
+            a, b, c = sorted(modes)
+            modes = draw(st.sampled_from([[b, c, a], [c, a, b]]))  # the two orders that are not their own inverse
         # post-selected, or sampled (select_list None): the outcome the run reports is then the one the rest is conditioned on
-        op = ["MeasureFock", [], modes, {"select_list": [draw(st.integers(0, 2)) for _ in modes] if draw(st.booleans()) else None}]
+        op = ["MeasureFock", [], modes, {"select_list": [draw(st.integers(0, 2)) for _ in modes] if draw(st.integers(0, 1 if msub != "fock3" else 2)) == 0 else None}]
     else:
-        k = draw(st.integers(1, n - 1))
-        op = ["Del", [], sorted(draw(st.permutations(list(range(n))))[:k]), {}]
-    return {"n": n, "cutoff": D, "rep": rep, "prior": prior, "prior2": prior2, "w": w, "kind": kind, "op": op,
+        k = draw(st.integers(1, nl - 1))
+        op = ["Del", [], sorted(draw(st.permutations(list(range(nl))))[:k]), {}]
+    op[2] = [alive[m] for m in op[2]]
+    return {"n": n, "cutoff": D, "rep": rep, "prior": prior, "prior2": prior2, "w": w, "kind": kind, "op": op, "pre_del": pre,
             "rng": draw(st.integers(0, 999)) if kind == "measure" else 11}
 
 
@@ -290,9 +511,9 @@ def _apply_test_op(q, op, D):
         ops.DensityMatrix(w * np.outer(a, a.conj()) + (1 - w) * np.outer(b, b.conj())) | regs[0]
     elif name == "Ket2":
         ops.Ket(ket_from_terms(2, D, params[0])) | regs
-    elif name == "KetN":
+    elif name in ("KetN", "Ket3"):
         ops.Ket(ket_from_terms(len(modes), D, params[0])) | regs
-    elif name == "DMN":
+    elif name in ("DMN", "DM2"):
         a, b, w = ket_from_terms(len(modes), D, params[0]), ket_from_terms(len(modes), D, params[1]), params[2]
         ops.DensityMatrix(w * fockref.ket_to_dm(a) + (1 - w) * fockref.ket_to_dm(b)) | regs
     elif name == "MeasureFock":
@@ -304,53 +525,115 @@ def _apply_test_op(q, op, D):
         o | (regs if len(regs) > 1 else regs[0])
 
 
+_LET = "abcdefghijklmnopqrstuvwxyz"
+
+
+def _homodyne_projector(D, phi, x):
+    """P = |e><e| / <e|e> for the vector e the backend projects on in MeasureHomodyne(phi, select=x) at cutoff D, read off
+    a canonical run: the measured mode is mode 0 of a two-mode pure register in the state sum_k |k,k>/sqrt(D), which leaves
+    mode 1 in conj(e)/|e|.  Returns None if that run does not leave |0> (x) pure state."""
+    from strawberryfields import ops
+
+    psi = np.zeros((D, D), complex)
+    for k in range(D):
+        psi[k, k] = 1 / np.sqrt(D)
+
+    def build(q):
+        ops.Ket(psi) | (q[0], q[1])
+        ops.MeasureHomodyne(phi, select=x) | q[0]
+
+    rho = fockref.state_dm(_run_fock(2, D, True, build))
+    sig = fockref.reduce_dm(rho, 2, [1])
+    vac = np.zeros((D, D), complex)
+    vac[0, 0] = 1
+    if float(np.max(np.abs(rho - _product(sig, [1], vac, [0], 2)))) > 1e-9 or abs(np.trace(sig @ sig).real - 1) > 1e-9:
+        return None
+    return sig.T
+
+
 def check_fock(ctx, case):
     from strawberryfields import ops
     from strawberryfields.backends.base import NotApplicableError
 
-    n, D, rep, kind, op = case["n"], case["cutoff"], case["rep"], case["kind"], case["op"]
-    targets = list(op[2])
+    n_reg, D, rep, kind, op = case["n"], case["cutoff"], case["rep"], case["kind"], case["op"]
+    pre = list(case.get("pre_del", []))
+    alive = [m for m in range(n_reg) if m not in pre]
+    n = len(alive)  # modes in the register when the operation under test acts; below, modes are numbered by their position among them
+    targets = [alive.index(t) for t in op[2]]
     spect = [m for m in range(n) if m not in targets]
-    psi0, rho0 = _prior_tensor(case)
+    psi0, rho_reg = _prior_tensor(case)
+    # state the operation acts on: the prior with the deleted modes traced out (computed from the JSON by fockref)
+    rho0 = fockref.reduce_dm(rho_reg, n_reg, alive) if pre else rho_reg
 
     def build(q):
         if rep == "pure":
             ops.Ket(psi0) | tuple(q)
         else:
-            ops.DensityMatrix(rho0) | tuple(q)
+            ops.DensityMatrix(rho_reg) | tuple(q)
+        if pre:
+            ops.Del | tuple(q[m] for m in pre)
         _apply_test_op(q, op, D)
 
     labels = ["backend:fock", "fock_" + rep, "kind:" + kind, "op:" + op[0]]
-    if targets[0] != 0:
+    if op[2][0] != 0:
         labels.append("target_not_first")
     if len(targets) == 2 and targets[0] > targets[1]:
         labels.append("descending_pair")
-    if len(targets) >= 3 and [targets[t] for t in targets] != list(range(len(targets))) and sorted(targets) == list(range(len(targets))):
+    rk = [sorted(targets).index(t) for t in targets]
+    if len(targets) >= 3 and [rk[r] for r in rk] != list(range(len(rk))):
         labels.append("non_involutive_target_order")
+    if pre:
+        labels.append("fock_register_gap")
+        if pre[0] < max(op[2]):
+            labels.append("fock_target_after_gap")  # internal axis of a target differs from its register index
+    if n_reg == 4 and kind != "prep" or n_reg == 4 and op[0] not in ("KetN", "DMN"):
+        labels.append("fock_four_modes")
+    if len(targets) >= 2 and spect and op[0] in ("Ket2", "Ket3", "DM2"):
+        labels.append("fock_multimode_prep_on_subset")
     # non-trivial: prior not a product across the cut (purity of the spectator marginal of each pure component < 1)
     r_sp = fockref.reduce_dm(rho0, n, spect)
     r_t = fockref.reduce_dm(rho0, n, targets)
     prod = _product(r_sp, spect, r_t, targets, n)
     entangled = float(np.max(np.abs(prod - rho0))) > 1e-3
-    sampled = kind == "measure" and op[3]["select_list"] is None
+    homodyne = kind == "measure" and op[0] == "MeasureHomodyne"
+    sampled = kind == "measure" and not homodyne and op[3]["select_list"] is None
     if sampled:
         labels.append("measure_sampled")
+        if "non_involutive_target_order" in labels:
+            labels.append("measure_sampled_3cycle")
+    if homodyne:
+        labels.append("fock_homodyne")
+    sel = cond = pr = None
     if kind == "measure" and not sampled:
-        sel = op[3]["select_list"]
-        idx = []
-        for m in range(n):
-            if m in targets:
-                s = sel[targets.index(m)]
-                idx += [s, s]
-            else:
-                idx += [slice(None), slice(None)]
-        cond = rho0[tuple(idx)]
+        if homodyne:
+            sel = op[3]["select"]
+            try:
+                P = _homodyne_projector(D, op[1][0], sel)
+            except Exception as exc:  # pylint: disable=broad-except
+                return ctx.crash(exc, "fock.MeasureHomodyne")
+            if P is None:
+                ctx.note(case, entangled, labels)
+                return ctx.fail("measure_poststate.fock.homodyne_canonical", "MeasureHomodyne(%r, select=%r) on mode 0 of sum_k |k,k> does not leave |0> (x) a pure state" % (op[1][0], sel))
+            t = targets[0]
+            ins = "".join(_LET[2 * m] + _LET[2 * m + 1] for m in range(n))
+            out = "".join(_LET[2 * m] + _LET[2 * m + 1] for m in range(n) if m != t)
+            cond = np.einsum("%s,%s->%s" % (ins, _LET[2 * t + 1] + _LET[2 * t], out), rho0, P)  # Tr_t(rho P) = <e|rho|e>/<e|e>
+        else:
+            sel = op[3]["select_list"]
+            idx = []
+            for m in range(n):
+                if m in targets:
+                    s = sel[targets.index(m)]
+                    idx += [s, s]
+                else:
+                    idx += [slice(None), slice(None)]
+            cond = rho0[tuple(idx)]
         pr = fockref.trace(cond, len(spect)) if spect else float(np.real(cond))
         if pr < 1e-4:
             ctx.note(case, False, ["measure_prob_too_small"])
             return None
     try:
-        st1 = _run_fock(n, D, rep == "pure", build, case.get("rng", 11))
+        st1 = _run_fock(n_reg, D, rep == "pure", build, case.get("rng", 11))
     except (NotApplicableError, NotImplementedError):
         ctx.note(case, False, ["rejected:fock"])
         return None
@@ -360,11 +643,13 @@ def check_fock(ctx, case):
     rho1 = fockref.state_dm(st1)
     if kind == "del":
         if st1.num_modes != len(spect):
-            return ctx.fail("del.num_modes.fock", "state has %d modes after deleting %s of %d" % (st1.num_modes, targets, n))
+            return ctx.fail("del.num_modes.fock", "state has %d modes after deleting %s of %d" % (st1.num_modes, pre + op[2], n_reg))
         d = float(np.max(np.abs(rho1 - r_sp)))
         if d > 1e-10:
             return ctx.fail("del.spectator_changed.fock", "remaining modes differ from the partial trace of the prior by %.3g" % d)
         return None
+    if st1.num_modes != n:
+        return ctx.fail("num_modes_changed.fock.%s" % op[0], "state has %d modes after %s on a register with %d modes" % (st1.num_modes, op[0], n))
     tr1 = fockref.trace(rho1, n)
     if kind in ("gate", "channel", "active"):
         r1 = fockref.reduce_dm(rho1, n, spect)
@@ -373,7 +658,7 @@ def check_fock(ctx, case):
         if kind != "active" and abs(tr1 - 1) > 1e-10:
             return ctx.fail("trace_changed.fock.%s" % op[0], "trace %.12f after %s on a prior with < cutoff photons" % (tr1, op[0]))
         if d > tol:
-            return ctx.fail("spectator_changed.fock.%s" % op[0], "reduced state of modes %s changed by %.3g (tol %.2g) when %s acted on %s [%s]" % (spect, d, tol, op[0], targets, rep))
+            return ctx.fail("spectator_changed.fock.%s" % op[0], "reduced state of modes %s changed by %.3g (tol %.2g) when %s acted on %s [%s]" % ([alive[s] for s in spect], d, tol, op[0], op[2], rep))
         return None
     if kind == "prep":
         # sigma from the same preparation on a register of its own (position independence)
@@ -387,8 +672,8 @@ def check_fock(ctx, case):
             r1 = fockref.reduce_dm(rho1, n, spect)
             c = fockref.trace(sig, k)
             if float(np.max(np.abs(r1 - c * r_sp))) > 1e-9:
-                return ctx.fail("spectator_changed.fock.%s" % op[0], "preparation %s on %s changed the other modes (%.3g)" % (op[0], targets, float(np.max(np.abs(r1 - c * r_sp)))))
-            return ctx.fail("prep_not_product.fock.%s" % op[0], "state after %s on %s is not rho_rest (x) prepared state (%.3g)" % (op[0], targets, d))
+                return ctx.fail("spectator_changed.fock.%s" % op[0], "preparation %s on %s changed the other modes (%.3g)" % (op[0], op[2], float(np.max(np.abs(r1 - c * r_sp)))))
+            return ctx.fail("prep_not_product.fock.%s" % op[0], "state after %s on %s is not rho_rest (x) prepared state (%.3g)" % (op[0], op[2], d))
         # closed forms of the documented post-state
         closed = None
         if op[0] == "Vacuum":
@@ -408,25 +693,27 @@ def check_fock(ctx, case):
             dc = float(np.max(np.abs(sig - fockref.ket_to_dm(closed))))
             if dc > 1e-9:
                 return ctx.fail("prep_state.fock.%s" % op[0], "prepared state differs from the documented one by %.3g" % dc)
-        if op[0] == "Ket2":
-            psi = ket_from_terms(2, D, op[1][0])
-            dc = float(np.max(np.abs(sig - fockref.ket_to_dm(psi))))
+        if op[0] in ("Ket2", "Ket3", "DM2"):
+            arg = fockref.ket_to_dm(ket_from_terms(k, D, op[1][0]))
+            if op[0] == "DM2":
+                arg = op[1][2] * arg + (1 - op[1][2]) * fockref.ket_to_dm(ket_from_terms(k, D, op[1][1]))
+            dc = float(np.max(np.abs(sig - arg)))
             if dc > 1e-9:
-                return ctx.fail("prep_state.fock.Ket2", "two-mode Ket preparation differs from its argument by %.3g" % dc)
+                return ctx.fail("prep_state.fock.%s" % op[0], "%d-mode preparation differs from its argument by %.3g" % (k, dc))
         if op[0] in ("KetN", "DMN"):
             arg = fockref.ket_to_dm(ket_from_terms(k, D, op[1][0]))
             if op[0] == "DMN":
                 arg = op[1][2] * arg + (1 - op[1][2]) * fockref.ket_to_dm(ket_from_terms(k, D, op[1][1]))
             dc = float(np.max(np.abs(rho1 - _product(None, [], arg, targets, n))))
             if dc > 1e-9:
-                return ctx.fail("prep_state.fock.%s" % op[0], "%d-mode preparation on modes %s: subsystem s of the argument is not in mode modes[s] (%.3g)" % (k, targets, dc))
+                return ctx.fail("prep_state.fock.%s" % op[0], "%d-mode preparation on modes %s: subsystem s of the argument is not in mode modes[s] (%.3g)" % (k, op[2], dc))
         return None
     if sampled:
         # condition on the outcome the run reported for each measured mode
         try:
-            sel = [int(np.ravel(_LAST["samples_dict"][m][-1])[0]) for m in targets]
+            sel = [int(np.ravel(_LAST["samples_dict"][m][-1])[0]) for m in op[2]]
         except Exception as exc:  # pylint: disable=broad-except
-            return ctx.fail("measure_samples_missing.fock", "no reported outcome for measured modes %s: %r" % (targets, exc))
+            return ctx.fail("measure_samples_missing.fock", "no reported outcome for measured modes %s: %r" % (op[2], exc))
         idx = []
         for m in range(n):
             if m in targets:
@@ -439,7 +726,7 @@ def check_fock(ctx, case):
         if len(targets) >= 2 and targets != sorted(targets) and len(set(sel)) > 1:
             ctx.label("measure_sampled_unsorted_unequal_outcomes")
         if pr < 1e-9:
-            return ctx.fail("measure_impossible_outcome.fock", "MeasureFock on %s reported outcome %s which has probability %.3g in the prior" % (targets, sel, pr))
+            return ctx.fail("measure_impossible_outcome.fock", "MeasureFock on %s reported outcome %s which has probability %.3g in the prior" % (op[2], sel, pr))
     if kind == "measure":
         k = len(targets)
         vac = np.zeros((D,) * (2 * k), complex)
@@ -447,7 +734,10 @@ def check_fock(ctx, case):
         exp = _product(cond / pr, spect, vac, targets, n)
         d = float(np.max(np.abs(rho1 - exp)))
         if d > 1e-8:
-            return ctx.fail("measure_poststate.fock", "after MeasureFock(select=%s) on %s the state differs from <k|rho|k>/p (x) vacuum by %.3g" % (sel, targets, d))
+            if homodyne:
+                return ctx.fail("measure_poststate.fock.homodyne", "after MeasureHomodyne(%r, select=%r) on mode %s of %d [%s] the state differs by %.3g from <e|rho|e>/p (x) vacuum, "
+                                "e = the vector the same measurement projects on at mode 0 of a two-mode register" % (op[1][0], sel, op[2], n, rep, d))
+            return ctx.fail("measure_poststate.fock", "after MeasureFock(select=%s) on %s the state differs from <k|rho|k>/p (x) vacuum by %.3g" % (sel, op[2], d))
         return None
     return None
 
@@ -467,7 +757,15 @@ def bng_case(draw):
             preps.append(["Fock", [draw(st.integers(1, 2))], [m], {}])
         else:
             preps.append([kind, draw(gen.op_params(kind, "ps")), [m], {}])
-    op = draw(gen.op_spec(n, ["Dgate", "Sgate", "Rgate", "BSgate", "LossChannel", "ThermalLossChannel", "S2gate", "MZgate", "Xgate", "Pgate"], "ps"))
+    okind = draw(st.sampled_from(["gate", "gate", "gate", "prep", "prep_multi"]))
+    if okind == "gate":
+        op = draw(gen.op_spec(n, ["Dgate", "Sgate", "Rgate", "BSgate", "LossChannel", "ThermalLossChannel", "S2gate", "MZgate", "Xgate", "Pgate"], "ps"))
+    elif okind == "prep":
+        # a Gaussian preparation in the middle of the circuit, on a mode that may hold a cat / Fock state (many weights)
+        op = draw(gen.op_spec(n, PS_PREPS, "ps"))
+    else:
+        k = draw(st.integers(1, n - 1))
+        op = draw(gaussian_prep(list(draw(st.permutations(list(range(n))))[:k]), 2.0))
     pre = draw(st.booleans())
     ent = []
     if pre:
@@ -494,7 +792,9 @@ def check_bng(ctx, case):
         return ctx.crash(exc, "bosonic." + op[0])
     w0, m0, c0 = np.asarray(s0.weights()), np.asarray(s0.means()), np.asarray(s0.covs())
     w1, m1, c1 = np.asarray(s1.weights()), np.asarray(s1.means()), np.asarray(s1.covs())
-    ctx.note(case, nontrivial=len(w0) > 1, labels=["backend:bosonic", "bosonic_multiweight" if len(w0) > 1 else "bosonic_oneweight", "op:" + op[0]])
+    is_prep = op[0] in PS_PREPS or op[0] == "Gaussian"
+    ctx.note(case, nontrivial=len(w0) > 1, labels=["backend:bosonic", "bosonic_multiweight" if len(w0) > 1 else "bosonic_oneweight", "op:" + op[0]]
+             + (["bosonic_nongauss_prep"] if is_prep and len(w0) > 1 else []))
     idx = [i for s in spect for i in (2 * s, 2 * s + 1)]
     if len(w0) != len(w1):
         return ctx.fail("bosonic.num_weights_changed.%s" % op[0], "%d -> %d weights" % (len(w0), len(w1)))
@@ -504,22 +804,36 @@ def check_bng(ctx, case):
     d = max(d, float(np.max(np.abs(c1b[:, idx][:, :, idx] - c0b[:, idx][:, :, idx]))))
     if d > 1e-10 * (1 + float(np.max(np.abs(c0)))):
         return ctx.fail("spectator_changed.bosonic_nongauss.%s" % op[0], "per-weight data of modes %s changed by %.3g when %s acted on %s" % (spect, d, op[0], targets))
+    if is_prep:
+        # every term of the linear combination carries the documented prepared state on the targets, uncorrelated with the rest
+        ref = spec.ref_run(n, [op], 2.0)
+        o = sfrun.XPXP(n)
+        mu_r, V_r = ref.mu[o], ref.V[np.ix_(o, o)]
+        tix = [i for t in sorted(targets) for i in (2 * t, 2 * t + 1)]
+        dt = max(float(np.max(np.abs(m1[:, tix] - mu_r[tix]))), float(np.max(np.abs(c1b[:, tix][:, :, tix] - V_r[np.ix_(tix, tix)]))))
+        cross = max(float(np.max(np.abs(c1b[:, tix][:, :, idx]))), float(np.max(np.abs(c1b[:, idx][:, :, tix]))))
+        if cross > 1e-9:
+            return ctx.fail("target_still_correlated.bosonic_nongauss.%s" % op[0], "after %s the targets %s remain correlated with the rest in some term (%.3g)" % (op[0], targets, cross))
+        if dt > 1e-9 * (1 + float(np.max(np.abs(V_r)))):
+            return ctx.fail("target_poststate.bosonic_nongauss.%s" % op[0], "per-term state of the targets differs from the documented one by %.3g" % dt)
     return None
 
 
 SUBS = [
-    Sub("ps_spectator", check=check_ps, strategy=lambda ctx: ps_case(), examples={"quick": 600, "thorough": 5000},
-        shards={"quick": 2, "thorough": 16}, rule="gaussian/bosonic: entangling prior + one op on ordered targets"),
+    Sub("ps_spectator", check=check_ps, strategy=lambda ctx: ps_case(), examples={"quick": 800, "thorough": 5000},
+        shards={"quick": 2, "thorough": 16}, rule="gaussian/bosonic: entangling prior (+ optional Del of some modes) + one op on ordered targets; sampled measurements conditioned on the reported outcome"),
     Sub("fock_spectator", check=check_fock, strategy=lambda ctx: fock_case(), examples={"quick": 300, "thorough": 2000},
-        shards={"quick": 3, "thorough": 16}, rule="fock pure/mixed: generated bounded-photon prior + one op; oracle computed from the JSON prior by fockref"),
-    Sub("bosonic_nongauss", check=check_bng, strategy=lambda ctx: bng_case(), examples={"quick": 60, "thorough": 500},
-        shards={"quick": 1, "thorough": 8}, rule="bosonic with cat/Fock spectators: per-weight spectator data unchanged"),
+        shards={"quick": 3, "thorough": 16}, rule="fock pure/mixed: generated bounded-photon prior (+ optional Del of one mode) + one op; oracle computed from the JSON prior by fockref"),
+    Sub("bosonic_nongauss", check=check_bng, strategy=lambda ctx: bng_case(), examples={"quick": 120, "thorough": 500},
+        shards={"quick": 1, "thorough": 8}, rule="bosonic with cat/Fock spectators: per-weight spectator data unchanged; mid-circuit Gaussian preparations per term"),
 ]
 
 MANIFEST = {
     "technique": "Hypothesis metamorphic testing (prior vs prior+operation) with fockref / refsim oracles for spectator and target blocks",
     "text": ("A generated correlated prior is followed by one operation on every ordered target choice; the spectators' reduced state "
              "must be unchanged (1e-10; Fock priors are photon-number bounded so that truncation cannot interfere), preparations / "
-             "Del / post-selected measurements must leave exactly rho_rest (x) documented post-state. Oracles are computed from the "
-             "JSON prior by fockref or by refsim, not by the backend under test."),
+             "Del / post-selected or sampled measurements must leave exactly rho_rest (x) documented post-state (sampled: conditioned on "
+             "the reported outcome). The same holds after some modes of the register were deleted. Oracles are computed from the "
+             "JSON prior by fockref or by refsim, not by the backend under test (fock homodyne: projection vector taken from one "
+             "canonical run of the same measurement, so that position / representation independence is what is decided)."),
 }
